@@ -466,7 +466,8 @@ pub fn drive(bytes: &[u8], st: &mut Stats, case: &dyn Fn() -> Value, order: u64,
             if let Err(p) = guard(|| (ar.len(), ar.is_empty(), ar.comment().len(), ar.offset(), ar.file_names().map(|n| n.len()).sum::<usize>())) {
                 note("archive-accessors", p);
             }
-            let names: Vec<String> = ar.file_names().take(16).map(|s| s.to_string()).collect();
+            // (guarded as well: a panic here would take the worker down and be reported as an abort instead of a panic)
+            let names: Vec<String> = guard(|| ar.file_names().take(16).map(|s| s.to_string()).collect()).unwrap_or_default();
             for i in 0..ar.len().min(16) {
                 for mode in 0..4 {
                     let api = ["by_index", "by_index_raw", "by_index_decrypt", "by_index_decrypt(wrong password)"][mode];
